@@ -7,6 +7,7 @@ package webp
 
 import (
 	"bytes"
+	"encoding/binary"
 	"errors"
 	"fmt"
 	"image"
@@ -211,18 +212,39 @@ func decodeLossless(data []byte) (image.Image, error) {
 
 // encodeFrameForAnimation encodes an image to a raw VP8/VP8L bitstream
 // for use by the animation package's FrameEncoderFunc.
+//
+// A lossy frame that has transparency is returned as frame data in the layout
+// the mux package expects: the 'ALPH' chunk (header, payload, padding)
+// followed by the VP8 bitstream. The alpha plane is always coded losslessly.
 func encodeFrameForAnimation(img image.Image, isLossless bool, quality int) ([]byte, error) {
 	opts := &EncoderOptions{
-		Lossless: isLossless,
-		Quality:  float32(quality),
-		Method:   4,
+		Lossless:         isLossless,
+		Quality:          float32(quality),
+		Method:           4,
+		AlphaCompression: -1, // default: lossless
+		AlphaFiltering:   -1, // default: fast
+		AlphaQuality:     -1, // default: 100 (no quantization)
 	}
 	if isLossless {
 		bs, _, err := encodeLossless(img, opts)
 		return bs, err
 	}
-	bs, _, err := encodeLossy(img, opts)
-	return bs, err
+	bs, alphaData, _, err := encodeLossyWithAlpha(img, opts)
+	if err != nil || alphaData == nil {
+		return bs, err
+	}
+	return prependALPHChunk(alphaData, bs), nil
+}
+
+// prependALPHChunk returns the ALPH chunk holding alphaData (chunk header,
+// payload and padding byte if the payload size is odd) followed by bitstream.
+func prependALPHChunk(alphaData, bitstream []byte) []byte {
+	padded := len(alphaData) + len(alphaData)&1
+	data := make([]byte, container.ChunkHeaderSize+padded, container.ChunkHeaderSize+padded+len(bitstream))
+	binary.LittleEndian.PutUint32(data[0:4], container.FourCCALPH)
+	binary.LittleEndian.PutUint32(data[4:8], uint32(len(alphaData)))
+	copy(data[container.ChunkHeaderSize:], alphaData)
+	return append(data, bitstream...)
 }
 
 // simpleEncodeForAnimation encodes an image as a complete simple (non-animated)
@@ -230,9 +252,12 @@ func encodeFrameForAnimation(img image.Image, isLossless bool, quality int) ([]b
 func simpleEncodeForAnimation(img image.Image, isLossless bool, quality float32) ([]byte, error) {
 	var buf bytes.Buffer
 	opts := &EncoderOptions{
-		Lossless: isLossless,
-		Quality:  quality,
-		Method:   4,
+		Lossless:         isLossless,
+		Quality:          quality,
+		Method:           4,
+		AlphaCompression: -1, // default: lossless
+		AlphaFiltering:   -1, // default: fast
+		AlphaQuality:     -1, // default: 100 (no quantization)
 	}
 	if err := Encode(&buf, img, opts); err != nil {
 		return nil, err
